@@ -51,6 +51,10 @@ def pyproof(pid: str, file: str, func: str, props: List[str], modname: str = "m"
                 res.error = "target not found: %r" % (e,)
             except EN.Unsupported as e:
                 res.error = "unsupported construct: %s" % (e,)
+                try:
+                    res.obls = E.obls       # keep what was generated before the engine gave up (refutations still count)
+                except NameError:
+                    pass
             except Exception as e:  # engine exception: checker error, never a verdict
                 res.error = "engine exception: %r\n%s" % (e, traceback.format_exc(limit=8))
             return res
